@@ -9,3 +9,4 @@ import OapiVerif.Props.C03
 import OapiVerif.Props.C13
 import OapiVerif.Props.C01
 import OapiVerif.Props.C17
+import OapiVerif.Props.C02
